@@ -398,6 +398,45 @@ def rule_MP8(rep, prog, q):
         rep.unknown(rid, "expected the inactive-suspend fence in _dispatch_lane_set_target_queue and _dispatch_source_set_handler, found %d" % n)
 
 
+def rule_TB9(rep, srcdir, tier):
+    rid = rep.rule("C06-TB9", "activation wiring: every queue class whose instances a client can create inactive (serial and concurrent lanes, sources) has its "
+                   "activation function in the dq_activate slot of its vtable - never the 'no activate' stub of the root / manager / main classes, which traps "
+                   "when the once-per-object activation of an initially-inactive queue runs (the queue then never becomes active and its items never run)", floor=3)
+    pi, _u = load(["init"], tier, srcdir)
+    k = consts.get(["_DISPATCH_QUEUE_BASE_TYPEFLAG", "_DISPATCH_QUEUE_ROOT_TYPEFLAG", "_DISPATCH_LANE_TYPE", "_DISPATCH_SOURCE_TYPE", "_DISPATCH_META_TYPE_MASK"], srcdir=srcdir)
+    # the slot: the one holding _dispatch_lane_activate / _dispatch_source_activate / _dispatch_queue_no_activate in the lane-family vtables
+    vts = {}
+    for m in pi.modules.values():
+        for name, g in m.globals.items():
+            if name.startswith("__OS_dispatch_") and name.endswith("_vtable") and g.get("fptrs") and g.get("init"):
+                try:
+                    ty = int(g["init"][2][0])
+                except Exception:
+                    continue
+                vts[name] = (ty, dict((o, f) for o, f in g["fptrs"]))
+    slot = None
+    for name, (ty, f) in vts.items():
+        for o, fnm in f.items():
+            if fnm in ("_dispatch_lane_activate", "_dispatch_source_activate"):
+                slot = o
+    if slot is None:
+        rep.unknown(rid, "anchor vanished: no vtable holds _dispatch_lane_activate / _dispatch_source_activate")
+        return
+    n = 0
+    for name, (ty, f) in sorted(vts.items()):
+        meta = ty & k["_DISPATCH_META_TYPE_MASK"]
+        if meta not in (k["_DISPATCH_LANE_TYPE"], k["_DISPATCH_SOURCE_TYPE"]) or (ty & (k["_DISPATCH_QUEUE_BASE_TYPEFLAG"] | k["_DISPATCH_QUEUE_ROOT_TYPEFLAG"])):
+            continue
+        n += 1
+        want = "_dispatch_source_activate" if meta == k["_DISPATCH_SOURCE_TYPE"] else "_dispatch_lane_activate"
+        rep.require(rid, f.get(slot) == want, "src/init.c", name, "activate-slot:%s" % name,
+                    "%s (do_type %#x, a class clients can create inactive) has %s in its dq_activate slot, expected %s: activating an initially-inactive queue of this "
+                    "class calls the wrong function (the 'no activate' stub traps) and its pending items never run" % (name, ty, f.get(slot), want),
+                    sample={"vtable": name, "activate": want})
+    if n < 3:
+        rep.unknown(rid, "fewer than 3 client-creatable queue classes found (%d)" % n)
+
+
 def rule_WM6(rep, prog, q, ex):
     from .C01 import PLAIN_STORE_OK
     rid = rep.rule("C06-WM6", "the suspend count lives in dq_state: outside constructors / destructors the word is changed only by atomic read-modify-write "
@@ -441,6 +480,13 @@ def run(rep, tier="quick", srcdir=None, only=None):
         rule_WM6(rep, prog, q, ex)
     if want("C06-MP8"):
         rule_MP8(rep, prog, q)
+    if want("C06-TB9"):
+        rule_TB9(rep, srcdir, tier)
+    if want("C18-TB2"):
+        # "initially inactive" is one digit of the attribute index: the attribute table decodes every one of its entries as itself (shared with C18)
+        from . import C18
+        pi, _u = load(["init"], tier, srcdir)
+        C18.rule_TB2(rep, pi)
     if want("C06-CP7"):
         from .sync_common import rule_cas_memoryless
         rid = rep.rule("C06-CP7", "the dq_state retry loops (suspend, resume, activate, the lock / width acquisitions) are memoryless: a decision taken by a failed "
